@@ -47,7 +47,7 @@ KANI_UNITS['fold'] = {
     'fold_comparisons': {'tier': 'quick', 'complete': True},
     'fold_div_no_panic_and_traps_kept': {'tier': 'quick', 'complete': True},
     'fold_mod_no_panic_and_traps_kept': {'tier': 'quick', 'complete': True},
-    'fold_div_mod_value': {'tier': 'thorough', 'complete': True},
+    'fold_div_mod_value_bounded': {'tier': 'quick', 'complete': False},
     'merge_plus_same_value': {'tier': 'quick', 'complete': True},
     'merge_plus_refuses_div_mod_mul_inner': {'tier': 'quick', 'complete': True},
     'merge_mul_result_form': {'tier': 'quick', 'complete': True},
@@ -106,6 +106,35 @@ KANI_UNITS['induction'] = {
 }
 
 PROPERTIES = {
+  'C02': {
+    'verus': ['tripcount', 'algebra', 'foldv'],
+    'kani': ['fold', 'mirbin', 'induction'],
+    'level': 'proof',
+    'scope': 'arithmetic kernels only: constant folding, algebraic merging, operand reordering / comparison flipping, '
+             'induction-variable algebra, guard operators, trip-count closed forms; the statement-level pass drivers are not covered',
+  },
+  'C05': {
+    'verus': ['lexer', 'tripcount'],
+    'kani': ['fold'],
+    'level': 'proof',
+    'scope': 'kernels only: totality (no panic, termination, bump within bounds and on a char boundary) of the hand-written '
+             'lexer scanners; panic-freedom of constant folding and trip-count analysis; parser / checker / printer not covered',
+  },
+  'C10': {
+    'verus': ['depgraph'],
+    'kani': [],
+    'level': 'proof',
+    'scope': 'kernel only: the recheck set (affected_set / transitive_set) contains the dirty modules, everything that '
+             'transitively imports them, and is closed under imports; ServerState update/rename/remove are not covered',
+  },
+  'C14': {
+    'verus': ['lexer'],
+    'kani': ['loc'],
+    'level': 'proof',
+    'scope': 'kernels only: Position order / Location contains / union algebra over all u32 values; the lexer\'s tracked '
+             'line/column equals the position of the consumed byte offset for whitespace, strings, line and block comments; '
+             'the ~60 union call sites in the parser are not covered',
+  },
   'C17': {
     'verus': ['heap'],
     'kani': ['pstr'],
@@ -125,6 +154,40 @@ STANDING_ASSUMPTIONS = {
     'table has fewer than 2^32 slots (precondition on every allocating call; `len as u32` would wrap beyond it)',
     'TempPStrCounter atomics are outside the unit (counter value treated as an arbitrary u32)',
     'usize is 64 bit; arithmetic overflow = panic (debug-assertion semantics)',
+  ],
+  'fold': [
+    'CBMC 6.11 / Kani 0.68 bit-precise semantics of Rust MIR; overflow = panic (debug-assertion semantics)',
+    'target semantics = kx/harness/common/wasm_sem.rs (WebAssembly i32: wrap-around, shift count mod 32, div_s traps on /0 and MIN/-1, rem_s traps on %0)',
+    'value of a folded DIV / MOD is checked in Verus unit foldv (a second bit-level divider does not finish in CBMC); Kani checks panic-freedom and trap preservation',
+    '(x*c1)*c2 == x*(c1*c2) modulo 2^32 is Verus lemma algebra::lemma_wrapping_mul_assoc; Kani checks the merged operator and constant',
+  ],
+  'mirbin': [
+    'CBMC 6.11 / Kani 0.68; operands range over every i32/i31 literal and three variable / string names (inline one-letter handles); valuations of names are arbitrary i32',
+  ],
+  'induction': [
+    'CBMC 6.11 / Kani 0.68; loop-invariant expressions range over every i32 constant and three variables with arbitrary values; a derived induction variable {b,m,i} denotes b*m+i in wrapping arithmetic',
+  ],
+  'loc': [
+    'CBMC 6.11 / Kani 0.68; all u32 line/column values; module references range over the three public constants (the field is private to samlang-heap)',
+  ],
+  'tripcount': [
+    'Verus/Z3 with vstd arithmetic lemmas; i32::checked_neg contract assumed (std documentation)',
+    'the induction variable is compared over mathematical integers; the in-range clause makes that equal to the wrapping run',
+  ],
+  'algebra': ['Verus/Z3 nonlinear arithmetic; vstd specs of i32::wrapping_mul / wrapping_add'],
+  'foldv': ['Verus/Z3; vstd specs of i32::checked_div / checked_rem / wrapping_* (truncating division)'],
+  'depgraph': [
+    'vstd models of HashMap / HashSet / Vec and their iterators; obeys_key_model::<ModuleReference>()',
+    'termination of transitive_set is NOT proved (exec_allows_no_decreases_clause): partial correctness only',
+    'R3 stub: initial.into_iter().collect_vec() returns a vector with exactly the elements of the set',
+    'DependencyGraph::new (graph construction from the parsed modules) is not covered',
+  ],
+  'lexer': [
+    'logos::Lexer is opaque (R7): remainder() = text from the current offset, bump(n) panics unless n is in range and on a char boundary; the generated DFA is not covered',
+    'UTF-8 facts assumed: the byte after an ASCII byte is a char boundary; well-formed UTF-8 cut at a boundary is well-formed',
+    'source text shorter than 2 GiB (i32::MAX bytes): columns are u32 and the escape counter is i32',
+    'R3 stubs: str::starts_with on ASCII patterns = first bytes; from_utf8_lossy/trim/post_process_block_comment are total',
+    'u8::is_ascii_whitespace = {space, \\t, \\n, form feed, \\r} (std documentation)',
   ],
   'pstr': [
     'CBMC 6.11 / Kani 0.68 bit-precise semantics of Rust MIR; little-endian x86_64 layout of the union',
